@@ -316,7 +316,8 @@ func init() {
 		Run:   c20Run,
 		Chunk: func(string, int) int { return 1 },
 		Required: func(tier string) []string {
-			return []string{"rules_compared", "nodes_compared", "actions_bound", "actions_executed_against_grammar", "action_argument_pairs_executed", "nodekind:choice", "nodekind:action", "nodekind:seq", "nodekind:labeled", "nodekind:ruleref", "nodekind:lit", "nodekind:class", "nodekind:any", "nodekind:and", "nodekind:not", "nodekind:andcode", "nodekind:zeroorone", "nodekind:zeroormore", "nodekind:oneormore"}
+			// generic in the grammar: nothing about which node kinds it uses
+			return []string{"rules_compared", "nodes_compared", "actions_bound", "actions_executed_against_grammar", "action_argument_pairs_executed"}
 		},
 		Post: func(a *mon.Agg) {
 			a.Extra["programs"] = a.Counters["rules_compared"]
